@@ -1,5 +1,6 @@
 import CstModel.Driver.BuilderArea
 import CstModel.Driver.InternArea
+import CstModel.Driver.GreenArea
 open Cst Cst.Drv
 
 def sessionStep (s : DState) : List String → Option (DState × String)
@@ -31,7 +32,10 @@ def stepLine (s : DState) (line : String) : DState × String :=
     | none =>
       match internStep s ws with
       | some r => r
-      | none => (s, "bad-op")
+      | none =>
+        match greenStep s ws with
+        | some r => r
+        | none => (s, "bad-op")
 
 partial def loop (h : IO.FS.Stream) (out : IO.FS.Stream) (s : DState) : IO Unit := do
   let line ← h.getLine
